@@ -20,11 +20,11 @@ HARNESSES = [(vc.HARNESS, "asan")]
 def run(ctx):
     rng = ctx.rng
     batches = []
-    batches.append(("chunk-size-configurations", vc.gen_chunk_configs(rng, 3000 if ctx.thorough else 150)))
+    batches.append(("chunk-size-configurations", vc.gen_chunk_configs(rng, 5000 if ctx.thorough else 150)))
     batches.append(("quiescence-shaped", vc.gen_quiescence(rng, 4000 if ctx.thorough else 250)))
     batches.append(("frame-orderings-exhaustive", vc.gen_frame_orderings(rng, 4 if ctx.thorough else 3)))
     hs = []
-    for _ in range(8000 if ctx.thorough else 380):
+    for _ in range(14000 if ctx.thorough else 380):
         t, _h = vc.gen_history(rng, rng.randint(20, 220 if ctx.thorough else 70))
         hs.append(t)
     batches.append(("random-histories", hs))
